@@ -99,6 +99,133 @@ def gen_preset(rng, tier):
 
 
 
+SUBMS = [500, 1500, 2500, 300, 999, 1001, 1999, 33300]   # waits (us) that are not whole milliseconds
+
+
+def wait_us(rng):
+    """a max_wait in microseconds with a sub-millisecond part"""
+    return rng.choice(SUBMS + [1000 * rng.randint(0, 20) + rng.randint(1, 999)])
+
+
+def gen_subms(rng, tier):
+    """`unit=us`: a max_wait that is not a whole number of milliseconds (1.5 ms, 500 us, 33.3 ms, …). The bulkhead is
+    filled, further callers queue; the clock visits the last millisecond boundary BEFORE arrival + max_wait (where a
+    wait truncated to whole milliseconds would already be over) and the first one at/after it (where tokio's timer
+    fires); in between waiters are polled, holders finish / are cancelled, slots are handed over."""
+    mx = rng.choice([1, 1, 2, 3])
+    us = wait_us(rng)
+    lo, hi = us // 1000, (us + 999) // 1000
+    header = "bulkhead max=%d wait=%d unit=us" % (mx, us)
+    if rng.random() < 0.15:
+        header = "bulkhead max=%d pre=reject wait=%d unit=us" % (mx, us)
+    d = Dims(rng, nsvc=rng.choice([1, 1, 1, 2]))
+    d.rdy_p, d.burn_p = 0, 0
+    ops = []
+    holders, waiters = [], []
+    t0 = rng.choice([0, 0, 3])
+    if t0:
+        ops.append("adv %d" % t0)
+    for c in range(1, mx + 1):
+        # holders that stay, that finish in the truncated tail, at the deadline, or later
+        lat = rng.choice([1000, 1000, lo, lo, hi, hi + 1, max(lo - 1, 0)])
+        ops.append("arrive %d inner=%d:%s%s" % (c, lat, rng.choice(["ok", "ok", "never", "err1"]), d.words(rng, svc=0)))
+        ops.append("poll %d" % c)
+        holders.append(c)
+    for c in range(mx + 1, mx + 1 + rng.randint(1, 3)):
+        ops.append("arrive %d inner=%d:%s%s" % (c, rng.choice([0, 0, 5, 1000]), pick_outcome(rng), d.words(rng, svc=0)))
+        ops.append("poll %d" % c)
+        waiters.append(c)
+    now = 0
+    for stop in ([lo, hi] if rng.random() < 0.8 else [max(lo - 1, 0), lo, hi, hi + 1]):
+        if stop > now:
+            ops.append("adv %d" % (stop - now))
+            now = stop
+        for _ in range(rng.randint(0, 4)):
+            r = rng.random()
+            if r < 0.45:
+                ops.append("poll %d" % rng.choice(waiters))
+            elif r < 0.65 and holders:
+                ops.append("drop %d" % holders.pop(rng.randrange(len(holders))))
+            elif r < 0.85 and holders:
+                ops.append("poll %d" % rng.choice(holders))
+            else:
+                ops.append("settle")
+    ops.append("adv %d" % rng.choice([0, 1, 1, 7]))
+    ops.append("settle")
+    return {"header": header, "ops": ops}
+
+
+def gen_nested(rng, tier):
+    """the wrapped service fans out through a clone of the bulkhead it sits behind: while an admitted call (the parent) is
+    being polled, its inner future makes further requests through the same bulkhead and polls them, right there, inside
+    the parent's poll (`manual onpoll c=<parent> by=<child> …`). A nested request is a request like any other: it needs a
+    slot of its own — with every slot taken by its ancestors it queues (and times out, or waits for ever)."""
+    mx = rng.choice([1, 1, 2, 2, 3])
+    wait = rng.choice([None, 0, 5, 20, rng.randint(1, 30)])
+    header = "bulkhead max=%d" % mx + ("" if wait is None else " wait=%d" % wait)
+    if wait and rng.random() < 0.2:
+        us = 1000 * (wait - 1) + rng.randint(1, 999)
+        header = "bulkhead max=%d wait=%d unit=us" % (mx, us)
+    d = Dims(rng, nsvc=rng.choice([1, 1, 2]))
+    d.burn_p = 0
+    d.rdy_p = rng.choice([0, 0, 0.1])
+    ops = []
+    nxt = [1]
+    allc = []
+
+    def fresh():
+        c = nxt[0]
+        nxt[0] += 1
+        allc.append(c)
+        return c
+
+    def plan(parent):
+        return "inner=%d:%s" % ((rng.choice([5, 10, 1000]), rng.choice(["ok", "never", "ok", "err1", "panic"])) if parent
+                                else (rng.choice([0, 0, 5, 10, 1000]), pick_outcome(rng)))
+    nparents = rng.randint(1, mx + 1)
+    for _ in range(nparents):
+        p = fresh()
+        ops.append("arrive %d %s%s" % (p, plan(True), d.words(rng, svc=0)))
+        kids = []
+        for _ in range(rng.randint(1, mx + 2)):
+            k = fresh()
+            parent_too = rng.random() < 0.3
+            ops.append("manual onpoll c=%d by=%d %s%s%s" % (p, k, plan(parent_too), d.words(rng, svc=0 if rng.random() < 0.8 else None),
+                                                             " keep=1" if rng.random() < 0.1 else ""))
+            kids.append(k)
+            if parent_too:
+                # grandchildren: requests nested in the poll of a nested request
+                for _ in range(rng.randint(1, 2)):
+                    g = fresh()
+                    ops.append("manual onpoll c=%d by=%d %s%s" % (k, g, plan(False), d.words(rng, svc=0)))
+        if rng.random() < 0.85:
+            ops.append("poll %d" % p)
+        if rng.random() < 0.3:
+            ops.append("adv %d" % rng.choice([0, 1, 5]))
+    now_marks = [5, 10, wait or 3, (wait or 3) + 5]
+    for _ in range(rng.randint(2, 10)):
+        r = rng.random()
+        if r < 0.4:
+            ops.append("poll %d" % rng.choice(allc))
+        elif r < 0.55:
+            ops.append("drop %d" % rng.choice(allc))
+        elif r < 0.8:
+            ops.append("adv %d" % rng.choice(now_marks))
+        elif r < 0.9 and nxt[0] < 40:
+            # a late fan-out: armed while the parent is already running, fires at its next pending poll
+            p = rng.choice(allc)
+            k = fresh()
+            ops.append("manual onpoll c=%d by=%d %s%s" % (p, k, plan(False), d.words(rng, svc=0)))
+            ops.append("poll %d" % p)
+        else:
+            ops.append("settle")
+    ops.append("settle")
+    if rng.random() < 0.5:
+        ops.append("adv %d" % rng.choice([5, 20, 1000]))
+        ops.append("settle")
+    return {"header": header, "ops": ops}
+
+
 def gen_fanout(rng, tier):
     """a helper creates the response futures and returns only them: every handle is gone before any future is
     polled (or after some have been); the futures still go through ONE bulkhead"""
@@ -132,9 +259,19 @@ def gen(rng, tier):
         return gen_fanout(rng, tier)
     if r < 0.13:
         return gen_preset(rng, tier)
+    if r < 0.20:
+        return gen_subms(rng, tier)
+    if r < 0.28:
+        return gen_nested(rng, tier)
     mx = rng.choice([1, 1, 2, 2, 3, 4])
     wait = rng.choice([None, None, 0, rng.randint(1, 50), rng.randint(1, 50), rng.choice([5, 10, 20])])
     header = "bulkhead max=%d" % mx + ("" if wait is None else " wait=%d" % wait)
+    wait_lo = wait
+    if wait and rng.random() < 0.15:
+        # the same wait with a sub-millisecond part: the timer fires at the first millisecond boundary at/after it
+        us = 1000 * (wait - 1) + rng.randint(1, 999)
+        wait_lo = wait - 1
+        header = "bulkhead max=%d wait=%d unit=us" % (mx, us)
     if rng.random() < 0.06:
         wait = None                       # an unrepresentable deadline (Duration::MAX) behaves like no deadline
         header = "bulkhead max=%d wait=max" % mx
@@ -158,6 +295,7 @@ def gen(rng, tier):
         header += " name=b%d" % rng.randint(0, 9)
     d = Dims(rng)
     idle_p = rng.choice([0, 0, 0.1, 0.3])
+    onpoll_p = rng.choice([0, 0, 0.1, 0.3])
     ondrop_p = rng.choice([0, 0.3, 0.8])
     dropsvc_p = rng.choice([0, 0, 0.5])
     ncall = rng.randint(1, 10) if rng.random() < 0.8 else rng.randint(mx, mx + 2)
@@ -186,11 +324,21 @@ def gen(rng, tier):
                 marks.append(now + lat)
                 if wait:
                     marks.append(now + wait)
+                    marks.append(now + wait_lo)
         elif r < 0.60 and arrived:
             c = rng.choice(arrived)
+            if pending and rng.random() < onpoll_p:
+                # the wrapped service fans out: requests made (and first polled) from inside the poll of caller c's inner call
+                for _ in range(rng.randint(1, 2)):
+                    if pending:
+                        c2 = pending.pop(0)
+                        ops.append("manual onpoll c=%d by=%d inner=%d:%s%s" % (c, c2, rng.choice([0, 1, 5, 20]), pick_outcome(rng),
+                                                                              d.words(rng).replace(" burn=1", "")))
+                        arrived.append(c2)
             ops.append("poll %d" % c)
             if wait:
                 marks.append(now + wait)
+                marks.append(now + wait_lo)
         elif r < 0.68 and arrived:
             c = rng.choice(arrived)
             if pending and rng.random() < ondrop_p:
@@ -243,10 +391,25 @@ def _scan(case, lines, meta):
     preset = cfg.get("preset") if cfg.get("preset") in PRESETS else None
     mx = int(cfg["max"]) if "max" in cfg else (PRESETS[preset] if preset else 1)
     wait = int(cfg["wait"]) if "wait" in cfg and cfg["wait"] != "max" else None   # "max": Duration::MAX, never due
+    if wait is not None and cfg.get("unit") == "us":
+        wait = (wait + 999) // 1000       # microseconds: the timer fires at the first millisecond boundary at/after the deadline
     # builder setter order: the last of reject_when_full() (the presets call it too) / max_wait_duration(..) decides
     if cfg.get("post") == "reject" or ((cfg.get("pre") == "reject" or preset) and "wait" not in cfg):
         wait = 0
     return mx, wait
+
+
+def _wait_us(case):
+    """the configured max_wait itself, in microseconds (None: unbounded), not rounded to the timer's grid"""
+    cfg = kvs(case["header"])
+    _, wait = _scan(case, None, None)
+    if wait and cfg.get("unit") == "us" and "wait" in cfg and cfg.get("post") != "reject":
+        return int(cfg["wait"])
+    return None if wait is None else wait * 1000
+
+
+def _fmt_us(us):
+    return "%dms" % (us // 1000) if us % 1000 == 0 else "%sms" % (us / 1000.0)
 
 
 def _callers(case):
@@ -260,7 +423,7 @@ def _callers(case):
         c = None
         if w[0] == "arrive" and len(w) > 1:
             c, kv = w[1], kvs(" ".join(w[2:]))
-        elif w[:2] == ["manual", "ondrop"]:
+        elif w[:2] in (["manual", "ondrop"], ["manual", "onpoll"]):
             kv = kvs(" ".join(w[2:]))
             c = kv.get("by")
         if c is not None and c not in owner:
@@ -327,6 +490,7 @@ def mon_c07(case, lines, meta):
     and no waiter — however busy its siblings are —, rejected only by the wait timeout, at the deadline, never after
     reaching the inner service; a request whose handle did not become ready never reaches the inner service"""
     mx, wait = _scan(case, lines, meta)
+    wus = _wait_us(case)
     owner, rdy = _callers(case)
     ev = _timeline(lines, meta)
     fp = {}
@@ -381,8 +545,9 @@ def mon_c07(case, lines, meta):
                     return "caller %s rejected with timeout although max_wait is unbounded" % c
                 if c in called:
                     return "caller %s was rejected after reaching the inner service" % c
-                if c in fp and t < fp[c] + wait:
-                    return "caller %s rejected at t=%s, before arrival (first poll, t=%s) + max_wait=%s" % (c, t, fp[c], wait)
+                if c in fp and t * 1000 < fp[c] * 1000 + wus:
+                    return "caller %s rejected at t=%s, before arrival (first poll, t=%s) + max_wait=%s" % (
+                        c, t, fp[c], wait if wus == wait * 1000 else _fmt_us(wus))
                 due = first_visited_at_or_after(case, fp[c] + wait) if c in fp else None
                 if c in fp and due is not None and t > due and due not in wakes.get(c, []):
                     return "caller %s (arrived t=%s, max_wait=%s) was not woken at its deadline (wake-ups since its previous poll: %s); rejected only when polled at t=%s" % (c, fp[c], wait, wakes.get(c, []), t)
@@ -401,6 +566,14 @@ def transitions(case, lines, meta=None):
     owner, rdy = _callers(case)
     if len(set(owner.values())) > 1:
         tags.append("several-services")
+    subms = hdr.get("unit") == "us" and hdr.get("wait", "0").isdigit() and int(hdr["wait"]) % 1000 != 0
+    if subms:
+        tags.append("submilli-wait")
+    nested = set()
+    for m in (meta or []):
+        mw = m[1].split()
+        if mw and mw[0] == "#onpoll":
+            nested.add(mw[2])
     for o in case["ops"]:
         if " via=pool" in o:
             tags.append("handle-reused")
@@ -411,6 +584,14 @@ def transitions(case, lines, meta=None):
             continue
         if w[0] == "inner_call":
             tags.append("inner_call")
+            if w[1] in nested:
+                tags.append("nested-admitted")
+        elif w[0] == "result" and w[2] == "err:timeout" and (subms or w[1] in nested):
+            if subms:
+                tags.append("submilli-timeout")
+            if w[1] in nested:
+                tags.append("nested-timeout")
+            tags.append("result-err-timeout")
         elif w[0] == "inner_drop":
             tags.append("dropped-running")
         elif w[0] == "result" and rdy.get(w[1], "ready") != "ready":
@@ -432,7 +613,8 @@ COMMON = {
     "nontrivial": nontrivial,
     "all_transitions": ["inner_call", "dropped-running", "result-ok", "result-err", "result-err-timeout", "result-panic-panic",
                         "refused-error", "refused-notready", "several-services", "handle-reused",
-                        "preset-small", "preset-medium", "preset-large", "preset-small-customised"],
+                        "preset-small", "preset-medium", "preset-large", "preset-small-customised",
+                        "submilli-wait", "submilli-timeout", "nested-admitted", "nested-timeout"],
     "model_modules": ["TR.Model.Bulkhead", "TR.Lemmas.Bulkhead", "TR.Lemmas.Bulkhead2", "TR.Lemmas.BulkheadMulti",
                       "TR.Lemmas.BulkheadLog", "TR.Lemmas.BulkheadWait"],
     "lean_files": ["TR.Model.Bulkhead", "TR.Lemmas.Bulkhead", "TR.Lemmas.Bulkhead2", "TR.Lemmas.BulkheadMulti",
@@ -442,7 +624,10 @@ COMMON = {
             "advances biased to deadline-1/deadline/deadline+1, followed by a quiescence + probe burst; 1..3 services built from the one "
             "layer value (or clones of it), handles obtained by clone / clone-of-ready / swap / template / a kept handle called again, "
             "inner readiness failing or pending on the handle of some arrivals and idle handles, layers built through the presets "
-            "(used as they come: filled to 10/50/200, or customised), `.name`, `BulkheadConfigBuilder::new/default`; distinct = distinct "
+            "(used as they come: filled to 10/50/200, or customised), `.name`, `BulkheadConfigBuilder::new/default`; waits with a "
+            "sub-millisecond part (`unit=us`: 500 us, 1.5 ms, 33.3 ms, …) with polls / completions / cancellations at the last millisecond "
+            "boundary before and the first one at/after the deadline; requests made by the wrapped service itself from inside the poll of an "
+            "admitted call, through a clone of the same bulkhead (`manual onpoll`, nested to depth 2); distinct = distinct "
             "implementation event log; non-trivial = a wait timeout, a cancelled running call, a panic, or >= 3 admissions",
     "trusted": ["tokio Semaphore/timeout semantics as transcribed in TR.Model.Bulkhead (sampled by the correspondence check)",
                 "harness: clock_gettime interposition, manual poller, scripted inner service", "python diff/monitors"],
@@ -468,6 +653,8 @@ SPECS = {
                            "inner_call, at most once; no caller or serial is used twice), so in every prefix calls - ended IS the number of open calls, and "
                            "the open calls of the log are exactly the model's running list. {inner_needs_permit,inner_call_origin}: an inner_call is "
                            "appended only by the poll that took a permit for that caller (a free one at its first poll, or the one a release handed it). "
+                           "{nested_call_needs_own_permit,nested_call_bound}: a request made from inside the poll of an admitted call (the wrapped service "
+                           "fanning out through a clone of its own bulkhead) is an ordinary request — with every permit taken it starts no inner call. "
                            "The model is tied to the real "
                            "BulkheadLayer by line-for-line agreement of event logs on generated schedules.",
                 level_note=LEVEL_NOTE),
@@ -482,6 +669,9 @@ SPECS = {
                            "{spare_capacity_admits,capacity_restored,probe_burst,probe_burst_simultaneous,probe_burst_overflow,admit_at_once_log}: after any history, once nothing is "
                            "in flight, max never-polled callers polled once each in any order all reach the inner service, are inside together if none "
                            "finishes at once, and the (max+1)-th queues (or is rejected when max_wait = 0). "
+                           "{timerTicks_not_early,timerTicks_less_than_a_tick_late,timerTicks_whole,timerTicks_zero_iff,rejection_never_before_configured_wait,"
+                           "waits_through_configured_wait,rejected_at_first_tick_after_configured_wait}: for a configured wait with a sub-millisecond part the "
+                           "deadline is the first timer tick (ms) at/after arrival + wait: never rejected before the configured wait has elapsed, less than 1 ms after. "
                            "That the runtime wakes a waiter at its deadline (so that it is polled then) is observed by the harness's waker monitor, not proved. "
                            "{services_independent,service_admit_at_once,service_quiescent_full,service_rejected_never_runs}: services built from one layer "
                            "value share nothing — an idle service admits at once whatever its siblings hold; {refused_never_runs}: a request whose "
